@@ -274,6 +274,35 @@ def run(ctx):
                     outcome = "raise:" + type(ex).__name__
                 aimed.append({"points": pts, "pos": 48, "state": st, "point": pts[-1], "assumed": t_last, "outcome": outcome})
                 ctx.count(core.digest(["aimed", pts]))
+    # plain streams a receiver meets without any encoder behind them: the same point 49 times (the all-zero and the all-one
+    # 196 bits are two of these - an idle / erased slot), two points alternating, a valid stream shifted by one point; the model's
+    # decoder run says which of them hold a point the state reached cannot emit
+    plain = [[pt] * 49 for pt in range(16)]
+    for _ in range(24):
+        a_, b_ = rng.randrange(16), rng.randrange(16)
+        plain.append([a_ if k_ % 2 == 0 else b_ for k_ in range(49)])
+    for _ in range(8):
+        tri = [rng.randrange(8) for _ in range(48)] + [0]
+        pts, cur = [], 0
+        for t_ in tri:
+            pts.append(Tt[cur][t_])
+            cur = t_
+        plain.append(pts[1:] + pts[:1])
+    nzero = 0
+    for pts in plain:
+        e = stream(pts)
+        nzero += 1 if not e.any() else 0
+        try:
+            T.decode(e)
+            outcome = "decoded"
+        except AssertionError:
+            outcome = "rejected"
+        except Exception as ex:  # noqa
+            outcome = "raise:" + type(ex).__name__
+        aimed.append({"points": pts, "pos": 0, "state": 0, "point": pts[0], "assumed": 0, "outcome": outcome})
+        ctx.count(core.digest(["aimed", pts]))
+    if nzero != 1:
+        raise core.MachineryError(f"the all-zero stream is not among the plain streams ({nzero})")
     if len(aimed) < 500:
         raise core.MachineryError(f"only {len(aimed)} aimed streams built")
     data["aimed"] = aimed
